@@ -642,7 +642,7 @@ func replayPair(rf *vstat.ReplayFile) string {
 	}
 	wit := sc.Witness
 	sc.Witness = nil
-	rounds := max(sc.Rounds, 1000) * 20
+	rounds := min(max(sc.Rounds, 1000)*5, 200000) // (a corpus replay has two minutes, also on a busy machine)
 	fmt.Printf("NOTE: a pair scenario is free-running: it is executed for %d rounds as recorded and again with the other stamping mode; the original schedule cannot be forced\n", rounds)
 	for _, stamped := range []bool{sc.Stamped, !sc.Stamped} {
 		if sc.Stamped = stamped; !stamped {
@@ -786,4 +786,72 @@ func genPair(t *rapid.T) *PairScenario {
 	sc.Skew = rapid.SampledFrom([]int{0, 0, 3, 10, 40}).Draw(t, "skew")
 	sc.Rounds = rapid.SampledFrom([]int{10000, 20000, 40000}).Draw(t, "rounds")
 	return sc
+}
+
+// TestC10PairSelfJudge unit-checks the part on hand-made rounds of its family
+// (both stamping modes: without stamps all racer operations share one interval)
+// and runs the machinery itself for a few thousand rounds.
+func TestC10PairSelfJudge(t *testing.T) {
+	ap := []string{"a", "p"}
+	mk := func(add, del [2]int64, kind string, newVal int, removed bool, reported []int, final []KV) *History {
+		d := HOp{G: 1, Kind: kind, Path: []string{"a"}, Call: del[0], Ret: del[1]}
+		if kind == "walkdel" {
+			d.Vals = append([]int{}, reported...)
+		} else {
+			d.Paths = [][]string{}
+			if removed {
+				d.Paths = [][]string{ap}
+			}
+		}
+		if final == nil {
+			final = []KV{}
+		}
+		return &History{Workers: 2, Ops: []HOp{
+			{G: 99, Kind: "add", Path: ap, Val: 20, Call: 1, Ret: 2},
+			{G: 0, Kind: "add", Path: ap, Val: newVal, Call: add[0], Ret: add[1]},
+			d,
+			{G: 2, Kind: "final", Call: 7, Ret: 8, KV: final},
+		}}
+	}
+	for _, iv := range []struct {
+		name     string
+		add, del [2]int64
+	}{{"unstamped", [2]int64{3, 4}, [2]int64{3, 4}}, {"stamped", [2]int64{3, 6}, [2]int64{4, 5}}} {
+		for _, c := range []struct {
+			name string
+			h    *History
+			bad  bool
+		}{
+			{"delete first, the Add files the leaf again", mk(iv.add, iv.del, "delcond", 203, true, nil, []KV{{ap, 203}}), false},
+			{"Add first, the condition is false for the new value", mk(iv.add, iv.del, "delcond", 203, false, nil, []KV{{ap, 203}}), false},
+			{"Add first, the new value is removed", mk(iv.add, iv.del, "delcond", 202, true, nil, nil), false},
+			{"LOST UPDATE: the delete judged the old value, the Add returned nil, the leaf is gone", mk(iv.add, iv.del, "delcond", 203, true, nil, nil), true},
+			{"walkdel first: old value reported, new leaf present", mk(iv.add, iv.del, "walkdel", 202, true, []int{20}, []KV{{ap, 202}}), false},
+			{"walkdel second: new value reported, leaf gone", mk(iv.add, iv.del, "walkdel", 202, true, []int{202}, nil), false},
+			{"LOST UPDATE: old value reported, Add returned nil, leaf gone", mk(iv.add, iv.del, "walkdel", 202, true, []int{20}, nil), true},
+		} {
+			f, inc := judgeSmall(c.h, true)
+			if len(inc) > 0 || (f != nil) != c.bad {
+				t.Errorf("%s / %s: judged %v (inconclusive %v), want refused=%v", iv.name, c.name, f, inc, c.bad)
+			}
+			if dv := diffJudge(c.h, 100000); dv.inconclusive != "" || dv.ok == c.bad {
+				t.Errorf("%s / %s: differential oracle ok=%v, want %v", iv.name, c.name, dv.ok, !c.bad)
+			}
+		}
+	}
+	// the machinery: every round is recorded completely and judged legal on this tree
+	for _, stamped := range []bool{true, false} {
+		sc := &PairScenario{
+			Setup:   []BOp{{Kind: "add", Path: ap}, {Kind: "add", Path: []string{"a", "q"}, Odd: true}, {Kind: "getleaf", Path: ap, For: 2}},
+			Racers:  [][]BOp{{{Kind: "add", Path: ap, Odd: true}}, {{Kind: "delcond", Path: []string{"a"}}}, {{Kind: "hupd"}}},
+			Stamped: stamped, Skew: 3, Rounds: 3000,
+		}
+		labels, _, n, fail := runPair(sc, sc.Rounds)
+		if fail != nil || n != sc.Rounds {
+			t.Fatalf("stamped=%v: %d rounds, %v", stamped, n, fail)
+		}
+		if !strings.Contains(strings.Join(labels, " "), "family:hupd-on-existing-leaf-vs-value-dependent-delete-of-it") {
+			t.Errorf("labels %v", labels)
+		}
+	}
 }
